@@ -4,6 +4,8 @@ import json, os, subprocess
 ROOT = os.path.dirname(os.path.dirname(os.path.abspath(__file__)))
 TECH = "symbolic evaluation of the real Python source (own AST->z3 evaluator py2smt) + SMT (z3 5.1; cvc5/z3-4.8 cross-check in thorough tier), counterexamples replayed on the real code"
 CLAIMED = {
+    "C08": ("2. C08", "Wrap-around timestamp order over all pairs of 32-bit values (irreflexive, antisymmetric, total, agreement with real time, derived operators, transitivity in a window); update_position_vector, refresh_table (arbitrary clock, incl. timestamps ahead of the truncated clock), every new_*_packet handler from an arbitrary table pre-state (source known/unknown, arbitrary entry, one other entry) and get_neighbours are evaluated symbolically against a serial-arithmetic oracle: newest PV stored, neighbour-flag rules per packet type, other entries untouched.",
+            "One-step VCs from an arbitrary pre-state (induction over packets is the hand-written composition); GN addresses are identified by their MID as GNAddress.__eq__ does; duplicate-packet list starts empty; own-address exclusion is checked in C06."),
     "C02": ("2. C02", "Every header codec (basic, common, traffic class, GN address, long/short PV, GBC/TSB/GUC/LS extended, BTP-A/B) is compared with an independently typed clause-9 layout table: encoders over all representable field values, decoders over all byte strings of the header length with defined enum values; every source operation (beacon, SHB, GBC/GAC x3 shapes, GUC, LS request) is evaluated with symbolic request/ego PV/MIB hop limit/sequence number and each emitted packet must equal basic|common|extended|payload octet for octet.",
             "Payload lengths and lifetimes come from a stated finite menu (all octets symbolic); location table, geometry and greedy-forwarding decisions are free-valued stubs; forwarded packets are covered by C06 once built."),
     "C04": ("2. C04", "For symbolic frames of every listed length the exact set of exception classes that can leave Router.gn_data_indicate (real decoders, real geometry function, failing upper layer) must be contained in the classes caught at the receive_callback call sites of RawLinkLayer.receive and the C-V2X callback loop (handler classes re-read from their ASTs); the two loops are evaluated with a scripted socket/queue: no Exception leaves them, the following frame is delivered, own/foreign-unicast frames are filtered.",
